@@ -10,11 +10,11 @@ from .rules_locks import cg
 from .ordq import edom
 from .rules_proto import events_of, SYNC, SYNC_NP, TRY_SYNC, POLL
 
-SCHED_JOB_DESYNC = 'desync::scheduler::desync_scheduler::Scheduler::schedule_job_desync'
+SCHED_JOB_DESYNC = 'desync::Scheduler::schedule_job_desync'
 AQ_DROP = '<%s as core::ops::drop::Drop>::drop' % ACTIVE_QUEUE
-DESYNC_DROP = '<desync::desync::Desync as core::ops::drop::Drop>::drop'
-SCHEDULE_DORMANT = 'desync::scheduler::core::SchedulerCore::schedule_dormant'
-REMOVE_FINISHED = 'desync::scheduler::core::SchedulerCore::remove_finished_threads'
+DESYNC_DROP = '<desync::Desync as core::ops::drop::Drop>::drop'
+SCHEDULE_DORMANT = 'desync::SchedulerCore::schedule_dormant'
+REMOVE_FINISHED = 'desync::SchedulerCore::remove_finished_threads'
 
 
 def _aq_locals(fn):
@@ -195,7 +195,7 @@ def c15_refuse(ctx):
                     pan_true = sw['otherwise']
                     pan_false = [b for v, b in sw['targets'] if v == '0'][0] if [b for v, b in sw['targets'] if v == '0'] else None
         np_calls = [bb for bb, t in fn.calls() if (t['func'].get('fn') or '').endswith('Scheduler::sync_no_panic')]
-        sync_calls = [bb for bb, t in fn.calls() if (t['func'].get('fn') or '') in ('desync::scheduler::desync_scheduler::sync', SYNC)]
+        sync_calls = [bb for bb, t in fn.calls() if (t['func'].get('fn') or '') in ('desync::sync', SYNC)]
         if pan_true is None or not np_calls or not sync_calls:
             out.append(bad('ORD-C15-refuse', 'Desync::drop', 'Desync::drop no longer chooses between sync and sync_no_panic on thread::panicking()', fn=fn.name))
         elif all(edom(fn, pan_true, b) for b in np_calls) and all(edom(fn, pan_false, b) for b in sync_calls):
